@@ -2217,8 +2217,9 @@ def proxy_equivalence_ok(sub_msgs, to_sub, ctl_code, chunks) -> bool:
     return True
 
 
-def group_terminate_ok(via_flags, timeout_given: bool) -> bool:
-    """Group.terminate's own loop with safe_terminate replaced by a recorder: every member exits exactly once,
+def group_terminate_ok(via_flags, timeout_given: bool, pre_exit: int = -1) -> bool:
+    """Group.terminate's own loop with safe_terminate replaced by a recorder (pre_exit: index of a directly started worker whose
+    exit() was called individually beforehand, -1 = none): every member exits exactly once,
     members proxied through another gateway before that gateway (i.e. in an earlier round), each round hands exactly
     the gateways that exited in it to safe_terminate (join+wait / kill pairs), the group is empty afterwards."""
     import execnet.multi as multi
@@ -2256,6 +2257,9 @@ def group_terminate_ok(via_flags, timeout_given: bool) -> bool:
     g._gateways.append(GW(g, "m", None, log))
     for k, v in enumerate(via_flags):
         g._gateways.append(GW(g, f"w{k}", "m" if v else None, log))
+    if 0 <= pre_exit < len(via_flags) and not via_flags[pre_exit]:
+        # this member had exit() called on its own before the group is terminated: it is unregistered, and joined/killed by terminate()
+        g._gateways[1 + pre_exit].exit()
     saved = multi.safe_terminate
 
     def recorder(execmodel, timeout, pairs):
@@ -2295,3 +2299,67 @@ def group_terminate_ok(via_flags, timeout_given: bool) -> bool:
         if v and not (round_of[f"w{k}"] < round_of["m"]):
             return False
     return True
+
+
+class _StubbornProcess:
+    """a local member process that did not come down: it ends only when it is killed.  POSIX contract of the signals a parent can
+    send: SIGKILL (Popen.kill) cannot be caught, blocked or ignored and also ends a stopped process; SIGTERM (Popen.terminate) and
+    every other signal end it only if it neither handles nor ignores them and is not stopped (`yields_to_term`)."""
+
+    def __init__(self, yields_to_term: bool, already_gone: bool):
+        self.alive = not already_gone
+        self.yields_to_term = yields_to_term
+        self.already_gone = already_gone
+        self.pid = 4711
+        self.returncode = None
+        self.stdin, self.stdout = PipeFile(), PipeFile()
+
+    def kill(self):
+        if self.already_gone:
+            raise ProcessLookupError("no such process")
+        self.alive = False
+
+    def terminate(self):
+        if self.already_gone:
+            raise ProcessLookupError("no such process")
+        if self.yields_to_term:
+            self.alive = False
+
+    def send_signal(self, sig):
+        import signal
+
+        if self.already_gone:
+            raise ProcessLookupError("no such process")
+        if sig == signal.SIGKILL or self.yields_to_term:
+            self.alive = False
+
+    def poll(self):
+        return None if self.alive else -9
+
+    def wait(self, timeout=None):
+        return -9
+
+
+def member_kill_is_unconditional(yields_to_term: bool, already_gone: bool) -> bool:
+    """Popen2IOMaster.kill() - what Group.terminate falls back to for a member that does not come down in time - ends the local
+    process whatever that process does with catchable signals, and does not raise when the process is gone already."""
+    import execnet.gateway_io as gio
+
+    proc = _StubbornProcess(yields_to_term, already_gone)
+
+    class _Sub:
+        PIPE = -1
+
+        @staticmethod
+        def Popen(args, stdout=None, stdin=None):
+            return proc
+
+    class _EM(FakeExecModel):
+        subprocess = _Sub
+
+    io = gio.Popen2IOMaster(["python"], _EM())
+    try:
+        io.kill()
+    except Exception:
+        return False
+    return not proc.alive
